@@ -2466,6 +2466,78 @@ def replay_tune_acceptance_rate_option(args):
     return True, "held"
 
 
+# ------------------------------------------------------------------------------------------
+# HMC: a trajectory that fails (outside the support, NaN) is answered by drawing a NEW momentum, up to ten times.  The forward proposal is then
+# the momentum density conditioned on success: its normalising constant depends on the state and belongs in the Hastings ratio.
+# ------------------------------------------------------------------------------------------
+def _hmc_retry_case(x0, p_used, eps):
+    """target Exponential(1) on the raw scale (support x > 0), unit mass, ONE leapfrog step of size eps: closed forms for everything.
+    Returns (Hastings term returned by the real operator, K0 - K1, true log ratio of reverse to forward proposal density, x', failures)"""
+    import contextlib
+    import io
+    from torchtree.core.parameter import Parameter
+    from torchtree.distributions.distributions import Distribution
+    from torchtree.inference.hmc import hamiltonian as ham_mod
+    from torchtree.inference.hmc.integrator import LeapfrogIntegrator
+    from torchtree.inference.hmc.operator import HMCOperator
+    t64 = lambda v: torch.tensor(v, dtype=torch.float64)
+    x = Parameter("x", t64([x0]))
+    target = Distribution("target", torch.distributions.Exponential, x, {"rate": Parameter("rate", t64([1.0]))})
+    draws = list(p_used)
+    used = []
+
+    def sample_momentum(self_, mass_matrix):
+        p_ = draws.pop(0)
+        used.append(p_)
+        return t64([p_])
+    old = ham_mod.Hamiltonian.sample_momentum
+    ham_mod.Hamiltonian.sample_momentum = sample_momentum
+    try:
+        with contextlib.redirect_stdout(io.StringIO()):
+            op = HMCOperator("hmc", target, [x], LeapfrogIntegrator("lf", 1, eps), Parameter("mass", t64([1.0])), 1.0, 0.8, [])
+            h = float(op.step())
+    finally:
+        ham_mod.Hamiltonian.sample_momentum = old
+    x1 = float(x.tensor[0])
+    p0 = used[-1]
+    # leapfrog with grad U = 1 (U = x on the support): p_half = p0 - eps/2, x1 = x0 + eps p_half, p1 = p_half - eps/2
+    p1 = p0 - eps
+    k_diff = 0.5 * p0 * p0 - 0.5 * p1 * p1
+
+    def c(xv):
+        # a trajectory from xv succeeds iff xv + eps (p - eps/2) > 0: s = P(p > eps/2 - xv/eps), p ~ N(0,1); with at most ten draws the density
+        # of ending with a given successful momentum is N(p) (1 + (1-s) + ... + (1-s)^9) = N(p) (1 - (1-s)^10) / s
+        s_ = 0.5 * math.erfc((eps / 2 - xv / eps) / math.sqrt(2.0))
+        return (1.0 - (1.0 - s_) ** 10) / s_
+    true = k_diff + math.log(c(x1)) - math.log(c(x0))
+    return h, k_diff, true, x1, len(used) - 1
+
+
+def ob_hmc_retry_conditioning():
+    def body():
+        n = 0
+        for x0, p_used, eps in ((0.2, [1.0], 1.5), (0.2, [0.3, 1.0], 1.5), (0.05, [-0.4, 0.2, 1.4], 1.0), (2.0, [0.5], 0.3)):
+            h, k_diff, true, x1, fails = _hmc_retry_case(x0, p_used, eps)
+            n += 1
+            if abs(h - true) > 1e-9:
+                args = {"x0": x0, "momenta": p_used, "step_size": eps}
+                raise Refuted("HMC on Exponential(1) without transform, unit mass, one leapfrog step of %s from x = %s (momenta drawn: %s, %d failed trajectories): moved to x' = %.6g; "
+                              "Hastings term returned %.6f = K0 - K1 = %.6f, but a failed trajectory is answered by a new draw, so the forward proposal is the momentum density "
+                              "conditioned on success and the log ratio of reverse to forward proposal density is %.6f (the state-dependent success probabilities are missing)"
+                              % (eps, x0, p_used, fails, x1, h, k_diff, true), witness=dict(args, returned=h, true=true),
+                              replay={"kind": "custom", "contract": "C15", "func": "replay_hmc_retry_conditioning", "args": {}}, confirmed=True)
+        return {"backend": "concrete (closed form)", "cases": n, "statement": "%d cases: returned Hastings term = log ratio of reverse to forward proposal density including the retry loop" % n}
+    return body
+
+
+def replay_hmc_retry_conditioning(args):
+    try:
+        ob_hmc_retry_conditioning()()
+    except Refuted as e:
+        return False, e.detail
+    return True, "held"
+
+
 def ob_tune_disabled():
     n = 0
     for name in ("ScalerOperator", "SlidingWindowOperator", "DirichletOperator", "GMRFPiecewiseCoalescentBlockUpdatingOperator", "HMCOperator"):
@@ -2655,6 +2727,8 @@ def obligations(tier, seed):
     for side in ("above", "below"):
         if side == "above":
             obs.append(Ob("C15.tune.direction[AdaptiveStepSize,use_acceptance_rate=True]", "B", ob_tune_acceptance_rate_option(), clause=T, funcs=F, timeout=120))
+            obs.append(Ob("C15.hastings.hmc.retry_conditioning[Exponential(1) raw scale,one step]", "B", ob_hmc_retry_conditioning(),
+                          clause="Hastings ratio = true log ratio of reverse to forward proposal densities of the operator (HMC with its retry loop, target with bounded support)", funcs=F, timeout=120))
         obs.append(Ob("C15.tune.direction[DualAveragingStepSize,%s].z3" % side, "U", (lambda side=side: prove_dual_direction(side)), clause=T, funcs=F, timeout=300))
     obs.append(Ob("C15.tune.monotone_in_acceptance[DualAveragingStepSize]", "U", prove_dual_monotone, clause=T, funcs=F, timeout=300))
     obs.append(Ob("C15.tune.disabled", "U", ob_tune_disabled, clause="adaptation off: tune changes nothing", funcs=F, timeout=120))
